@@ -186,9 +186,20 @@ def run_c04(tier, replay=None):
             if p.endswith(".json"):
                 reqs.append({"id": len(meta), "path": os.path.join(ddir, p)})
                 meta.append(("shipped", p))
+        # (3b) models produced by the converter: every shipped project as converted (thorough: all 68; quick: the 12 .ctehexml),
+        # and the project directories with the overrides / extra data of HULC's result files
+        from convert_checks import corpus_project_files
+        for f, ext in corpus_project_files():
+            if quick and ext != "ctehexml":
+                continue
+            reqs.append({"id": len(meta), "convert": f, "fmt": ext})
+            meta.append(("converted", os.path.relpath(f, REPO)))
+        for d in sorted({os.path.dirname(f) for f, ext in corpus_project_files() if ext == "ctehexml"}):
+            reqs.append({"id": len(meta), "collect": d})
+            meta.append(("collected", os.path.relpath(d, REPO)))
         # (4) random full models with random floats (incl. subnormals, -0.0, 1e30)
         specials = [0.0, 1.0, 1e30, 1e-40, 0.1, 123456.79, 3.4028235e38, 1e-7]
-        for n in range(20 if quick else 400):
+        for n in range(20 if quick else 4000):
             model = {"meta": copy.deepcopy(base["Meta"])}
             for struct, where in WHERE.items():
                 inst = copy.deepcopy(base[struct])
@@ -203,7 +214,9 @@ def run_c04(tier, replay=None):
         events = []
         for ans in read_ndjson(trace + ".raw"):
             mt = meta[ans["id"]]
-            rt = {"ev": "Roundtrip", "src": mt[0] + (":" + str(mt[1]) if mt[0] in ("keys", "shipped", "random") else ""), "loads": ans["loads"],
+            if ans.get("skip"):
+                continue            # a project the converter rejects is not a model
+            rt = {"ev": "Roundtrip", "src": mt[0] + (":" + str(mt[1]) if mt[0] in ("keys", "shipped", "random", "converted", "collected") else ""), "loads": ans["loads"],
                   "debug_equal": ans["debug_equal"], "text_equal": ans["text_equal"], "value_equal": ans["value_equal"], "shipped": mt[0] == "shipped",
                   "err": ans.get("err", "")}
             events.append(rt)
